@@ -1,7 +1,143 @@
-//! C14: correspondence + oracle runs (sub-commands `c14` / `c14-*`).
+//! C14: correspondence + oracle runs (sub-commands `c14-*` of hfull).
+//!
+//!   * `c14-dhcps` (builder codec-b): the malformed DHCP stream of hcore's `c14-dhcp`, fed to the
+//!     real `DhcpServer::demux` (which lives in the `elvis` crate, hence in this binary).
+//!     Op lines: `sdemux <fetch> <hex> <pool>`; `pool` = the single address the server's generator
+//!     holds (`-` = exhausted), `fetch` = what `fetch_ip()` yields for that pool (for the model).
 use hcommon::*;
 
+// the generators / classification of the hcore side are shared by inclusion (elvis-core + hcommon only)
+#[path = "../../../hcore/src/props/c14.rs"]
+#[allow(dead_code)]
+mod core_c14;
+
 pub fn run(args: &Args) {
-    eprintln!("hfull: {} not implemented yet", args.prop);
-    std::process::exit(2);
+    match args.prop.as_str() {
+        "c14-dhcps" | "c14-dhcps-v0" => dhcps::run(args),
+        _ => {
+            eprintln!("hfull: {} not implemented yet", args.prop);
+            std::process::exit(2);
+        }
+    }
+}
+
+mod dhcps {
+    use super::core_c14::codec_b::{classify, dec_dhcp, fail, flush_failures, ip, ipn, malformed_case, biased, Decoded, Proto, Recorder};
+    use elvis::applications::DhcpServer;
+    use elvis::ip_generator::{IpGenerator, IpRange};
+    use elvis_core::protocol::DemuxError;
+    use elvis_core::{Control, Machine, Message, Protocol};
+    use hcommon::*;
+    use std::sync::Arc;
+
+    fn pool_of(tok: &str) -> Option<IpGenerator> {
+        if tok == "-" {
+            Some(IpGenerator::none())
+        } else {
+            let n: u32 = tok.parse().ok()?;
+            Some(IpGenerator::new(IpRange::new(ip(n), ip(n))))
+        }
+    }
+
+    fn apply(line: &str, out: &mut Out) {
+        let w: Vec<&str> = line.split_whitespace().collect();
+        let ans = (|| -> Option<String> {
+            let ["sdemux", fetch, h, pool] = w.as_slice() else { return None };
+            let bs = unhex(h);
+            let gen = pool_of(pool)?;
+            // the op line must state what this pool yields (it is the model's input)
+            let yields = gen.clone().fetch_ip().map(|a| ipn(a).to_string()).unwrap_or("-".into());
+            if yields != *fetch {
+                return None;
+            }
+            let server = DhcpServer::new(ip(0x7b7b7b7b), IpRange::new(ip(1), ip(1)));
+            *server.ip_generator.write().unwrap() = gen;
+            let before = format!("{:?}", server.ip_generator.read().unwrap());
+            let decoded = dec_dhcp(&bs);
+            let rec = Arc::new(Recorder::default());
+            let r = catch(|| server.demux(Message::new(bs.clone()), rec.clone(), Control::new(), Machine::new().arc()));
+            let sends: Vec<Vec<u8>> = rec.0.lock().map(|v| v.clone()).unwrap_or_default();
+            let after = server.ip_generator.read().map(|g| format!("{:?}", g)).unwrap_or_else(|_| "poisoned".into());
+            Some(match r {
+                Err(p) => {
+                    let (site, ident) = classify(&p);
+                    out.count(&format!("sdemux.{}", site));
+                    // a well-formed Discover on an exhausted pool is the code's acknowledged TODO (C15), not malformed input
+                    if site != "panic:unwrap:dhcp_server_fetch_ip" {
+                        fail(out, &format!("DhcpServer::demux panicked ({}) on datagram {}", site, hex(&bs)), &ident);
+                    }
+                    site
+                }
+                Ok(res) => {
+                    let accepted = matches!(decoded, Decoded::Ok { .. });
+                    if !accepted && (res.is_ok() || !sends.is_empty() || before != after) {
+                        fail(
+                            out,
+                            &format!("DhcpServer::demux did not drop an undecodable datagram {} (result {:?}, {} sends, pool changed: {})", hex(&bs), res, sends.len(), before != after),
+                            "demux-not-dropped dhcp-server",
+                        );
+                    }
+                    let ans = match (res, sends.len(), &decoded) {
+                        (Err(DemuxError::Header), 0, _) if before == after => "err-header".to_string(),
+                        (Err(DemuxError::Other), 0, _) if before == after => "err-other".to_string(),
+                        (Ok(()), 1, _) => format!("sent {}", hex(&sends[0])),
+                        (Ok(()), 0, Decoded::Ok { v, .. }) => format!("released {}", v.yip),
+                        (r, n, _) => format!("other {:?} {}", r, n),
+                    };
+                    out.count(&format!("sdemux.{}", ans.split(' ').next().unwrap_or("")));
+                    ans
+                }
+            })
+        })();
+        match ans {
+            Some(a) => out.line(line, &a),
+            None => out.line(line, "bad-op"),
+        }
+        flush_failures(out);
+    }
+
+    pub fn run(args: &Args) {
+        let mut out = Out::new(&args.out);
+        out.max_failures = 40;
+        let rule = "the malformed DHCP stream (valid packet, every truncation, every message type code, non-UTF-8 strings, field mutations, random bytes) fed to DhcpServer::demux with a one-address or an exhausted pool; oracles: no panic (except the documented exhausted-pool unwrap on a well-formed Discover), an undecodable datagram is dropped: Err, nothing sent, pool unchanged; a case is non-trivial if it saw a reply, a release and a drop; distinct = hash of the op lines";
+        if let Some(rp) = &args.replay {
+            out.begin_case(0);
+            out.mark_nontrivial();
+            for l in read_ops(rp) {
+                if !l.starts_with("case ") {
+                    apply(&l, &mut out);
+                }
+            }
+            out.end_case();
+            out.finish(rule);
+            return;
+        }
+        let mut rng = Rng::new(args.seed ^ 0x5d5d_0000);
+        for c in 0..args.cases {
+            let mut r = rng.fork();
+            out.begin_case(c);
+            // case 0 of the hcore stream is the 9000-line UTF-8 table sweep; take a slice of it
+            let mut ops = malformed_case(Proto::Dhcp, c, &mut r);
+            if c == 0 {
+                ops = ops.into_iter().step_by(7).collect();
+            }
+            let (mut sent, mut dropped, mut released) = (0, 0, 0);
+            for op in ops {
+                let Some(h) = op.split_whitespace().nth(1) else { continue };
+                let pool = if r.chance(1, 8) { "-".to_string() } else { (biased(&mut r, 32) as u32).to_string() };
+                let fetch = pool_of(&pool).and_then(|mut g| g.fetch_ip()).map(|a| ipn(a).to_string()).unwrap_or("-".into());
+                let line = format!("sdemux {} {} {}", fetch, h, pool);
+                let before = (out.hist.get("sdemux.sent").copied().unwrap_or(0), out.hist.get("sdemux.err-header").copied().unwrap_or(0), out.hist.get("sdemux.released").copied().unwrap_or(0));
+                apply(&line, &mut out);
+                sent += out.hist.get("sdemux.sent").copied().unwrap_or(0) - before.0;
+                dropped += out.hist.get("sdemux.err-header").copied().unwrap_or(0) - before.1;
+                released += out.hist.get("sdemux.released").copied().unwrap_or(0) - before.2;
+            }
+            if (sent > 0 && dropped > 0 && released > 0) || c == 0 {
+                out.mark_nontrivial();
+            }
+            out.end_case();
+        }
+        out.finish(rule);
+    }
 }
